@@ -641,7 +641,7 @@ fn restore_and_dump(backup_dir: &std::path::Path, id: nervusdb_storage::backup::
 
 pub fn c29(tier: Tier) -> i32 {
     let rep = Report::new("C29", tier);
-    rep.rule("quiescent part: every history of the storage alphabet up to the stated depth, then close, backup, restore into a fresh path, open: dump equal. Concurrent part: a backup thread (scheduling points before the page-file copy, between the two copies, after the log copy) runs against a writer thread executing a fixed list over {commit, compact, close-time log rewrite} (points: every lock acquisition and publication step; thorough: every I/O step); ALL schedules with at most the stated number of preemptions; oracle: the restored database opens and its dump equals the sequential state after p writer operations, completed_before_backup_began <= p <= started_before_backup_completed; non-trivial = backups that overlapped a writer operation");
+    rep.rule("quiescent part: every history of the storage alphabet up to the stated depth, then close, backup, restore into a fresh path, open: dump equal. Concurrent part: a backup thread (scheduling points before the page-file copy, between the two copies, after the log copy) runs against a writer thread executing a fixed list over {commit, compact, close-time log rewrite} (two configurations: points at every lock acquisition and publication step with the larger preemption bound, and additionally at every I/O step with the smaller one); ALL schedules with at most the stated number of preemptions; oracle: the source files, copied when both threads are done (the process killed there), recover to the writer's final state (the backup did not touch the source); the restored database opens and its dump equals the sequential state after p writer operations, completed_before_backup_began <= p <= started_before_backup_completed; non-trivial = backups that overlapped a writer operation");
     // quiescent
     {
         let nodes = vec![1u64, 2];
@@ -697,11 +697,11 @@ pub fn c29(tier: Tier) -> i32 {
         }
         l
     };
-    let bound = tier.pick(2, 3);
-    let io_points = tier == Tier::Thorough;
-    rep.set("preemption_bound", json!(bound));
+    // (preemption bound, every I/O step is a scheduling point)
+    let configs: Vec<(usize, bool)> = if tier == Tier::Thorough { vec![(3, false), (2, true)] } else { vec![(2, false), (1, true)] };
+    rep.set("preemption_bound", json!(configs.iter().map(|(b, io)| json!({"bound": b, "io_steps_are_points": io})).collect::<Vec<_>>()));
     let mut reports = Vec::new();
-    for list in &lists {
+    for (list, (bound, io_points)) in lists.iter().flat_map(|l| configs.iter().map(move |c| (l, *c))) {
         let seqref: Arc<Vec<Dump>> = {
             let dir = scratch_dir("c29ref");
             let _g = ScratchGuard(dir.clone());
@@ -758,8 +758,9 @@ pub fn c29(tier: Tier) -> i32 {
             let seqref = seqref.clone();
             let list2 = list.clone();
             let overlapped = &overlapped;
+            let engine_keep = engine;
             let check = move |x: &Exec| {
-                let _g = ScratchGuard(dir);
+                let _g = ScratchGuard(dir.clone());
                 rep.add_states(1);
                 rep.add_traces(1);
                 rep.add_transitions(x.points.len() as u64);
@@ -778,6 +779,36 @@ pub fn c29(tier: Tier) -> i32 {
                     rep.violation(Violation { class: format!("thread_panicked:{}", truncate(e, 80)), kinds: kinds_v, replay, detail: e.clone() });
                     return;
                 }
+                // the backup must not touch the source: the files as they are now (the process killed right here)
+                // recover to the state after all writer operations
+                {
+                    let img = dir.join("image");
+                    let _ = std::fs::create_dir_all(&img);
+                    for f in ["g.ndb", "g.wal"] {
+                        let _ = std::fs::copy(dir.join(f), img.join(f));
+                    }
+                    let want = seqref.last().unwrap();
+                    match catch(|| GraphEngine::open(img.join("g.ndb"), img.join("g.wal"))) {
+                        Ok(Ok(e)) => {
+                            let got = dump_snapshot(&e.snapshot(), &c03_spec());
+                            if let Some((c, dd)) = want.diff(&got) {
+                                let class = format!("backup_damaged_source:{c}");
+                                rep.outcome(&class);
+                                rep.violation(Violation { class, kinds: kinds_v, replay, detail: format!("after the writer finished and the backup ran, recovering the source files gives a state that differs from the writer's final state: {dd}") });
+                                return;
+                            }
+                        }
+                        Ok(Err(e)) => {
+                            rep.violation(Violation { class: "backup_damaged_source:does_not_open".into(), kinds: kinds_v, replay, detail: e.to_string() });
+                            return;
+                        }
+                        Err(p) => {
+                            rep.violation(Violation { class: "backup_damaged_source:open_panics".into(), kinds: kinds_v, replay, detail: p });
+                            return;
+                        }
+                    }
+                }
+                drop(engine_keep);
                 let Some((lo, hi, d)) = res.lock().unwrap().clone() else { return };
                 if hi > lo {
                     overlapped.fetch_add(1, Ordering::Relaxed);
@@ -810,7 +841,7 @@ pub fn c29(tier: Tier) -> i32 {
             };
             (bodies, check)
         });
-        reports.push(json!({"writer": list.iter().map(|o| format!("{o:?}")).collect::<Vec<_>>(), "schedules": stats.schedules, "max_points": stats.max_points, "capped": stats.capped, "backups_overlapping_a_writer_op": overlapped.load(Ordering::Relaxed)}));
+        reports.push(json!({"writer": list.iter().map(|o| format!("{o:?}")).collect::<Vec<_>>(), "preemption_bound": bound, "io_steps_are_points": io_points, "schedules": stats.schedules, "max_points": stats.max_points, "capped": stats.capped, "backups_overlapping_a_writer_op": overlapped.load(Ordering::Relaxed)}));
         if stats.capped {
             rep.not_exhaustive("schedule cap reached for one writer list");
         }
